@@ -137,7 +137,7 @@ def run(ctx, F):
         hp = [bi for bi, t in cl.calls() if (mir.callee_name(t) or "").endswith("transform::handle_parsed")]
         if not hp:
             continue
-        key = f"handle_item::{cl.def_.rsplit('::', 1)[-1]}"
+        key = f"handle_item|{_item_arm_of_closure(hi, cl.def_) or 'closure'}"
         after = cl.reachable_blocks(cl.blocks[hp[0]]["term"]["target"])
         uses_with_after = False
         for b2 in after:
@@ -156,6 +156,25 @@ def run(ctx, F):
             ctx.fail("F3-config-validated", key, f"in {cl.def_} the `with` names are only used to pre-define variables before the module body runs; nothing afterwards checks that each was declared with !default (unknown or non-default variables are accepted silently)", where=cl.where())
     ctx.explanation = ("Sibling tables of member-kind vs filter method in every filtering loop (AST); dominance of the ConfigBuiltin test over the use of a built-in module (MIR); inventory of functions that mention the "
                        "built-in marker variable; literal operations of the default-namespace derivation; control-flow position of uses of the `with` clause relative to the evaluation of the module body.")
+
+
+def _item_arm_of_closure(hi, closure_def):
+    """`Item::Use` / `Item::Forward`: the arm of handle_item's match in which the closure is created
+    (keys must not depend on the closure's ordinal)"""
+    site = None
+    for bi, si, st in hi.stmts():
+        if st["k"] == "assign" and st["rv"]["k"] == "agg" and st["rv"].get("closure") == closure_def:
+            site = bi
+    if site is None:
+        return None
+    dom = hi.dominators()
+    for bi, blk in enumerate(hi.blocks):
+        t = blk["term"]
+        if t["k"] == "switch" and (t.get("of_ty") or "").endswith("item::Item") and len(t["targets"]) >= 8:
+            for _, tg, name in t["targets"]:
+                if name and tg in dom.get(site, ()):
+                    return "Item::" + name
+    return None
 
 
 def _mentions_with(cl, term):
